@@ -949,6 +949,13 @@ class Executor:
             off = z3.simplify(p.off)
             if z3.is_int_value(off) and off.as_long() == 0:
                 return st.mem[r.uid]
+        if r.kind == 'local' and r.owner is not None and r.owner in st.vars:
+            # *(&v): the current value of the variable
+            off = z3.simplify(p.off) if isinstance(p.off, z3.ExprRef) else p.off
+            if (isinstance(off, int) and off == 0) or (
+                    isinstance(off, z3.ExprRef) and z3.is_int_value(off) and
+                    off.as_long() == 0):
+                return st.vars[r.owner]
         h = self.externs.get('read:' + r.kind)
         if h:
             return h(self, st, p, loc.ty, n)
@@ -2019,6 +2026,16 @@ class Executor:
                 if rid in new:
                     state.pc.append(new[rid] >= K if op_ == 'ge'
                                     else new[rid] <= K)
+            if counter is not None and counter in new:
+                # universally quantified facts registered by contracts are
+                # instantiated at the iteration number (a hint: the facts
+                # themselves are in the path condition)
+                kk = new[counter] - lows[counter]
+                for f_ in state.ghost.get('forall', ()):
+                    try:
+                        state.pc.append(f_(kk))
+                    except Exception:
+                        pass
             return new
 
         if links is None or probe:
